@@ -37,7 +37,7 @@ def mkalg(name):
     return Algebra(signature=list(a)) if isinstance(a, list) else Algebra(*a)
 LAYOUTS = ['sparse', 'permuted', 'dense', 'densebin', 'empty']
 BACKINGS = ['list', 'intarr', 'floatarr', 'f32arr', 'i32arr']
-MENU = ['int', 'str'] + [f'mv:{l}:{b}' for l in LAYOUTS for b in BACKINGS if not (l == 'empty' and b != 'list')] + ['mv:arr1', 'mv:arr2', 'call:mv', 'call:list', 'mv:point:list']
+MENU = ['int', 'str'] + [f'mv:{l}:{b}' for l in LAYOUTS for b in BACKINGS if not (l == 'empty' and b != 'list')] + ['mv:arr1', 'mv:arr2', 'call:mv', 'call:list', 'mv:point:list', 'call:partial', 'call:object']
 SUBMENU = ['int', 'mv:sparse:list', 'mv:permuted:floatarr', 'mv:densebin:list', 'mv:dense:intarr', 'mv:arr1', 'call:mv', 'call:list', 'mv:point:list']
 WRAPS = ['plain', 'list', 'tuple', 'rootcall']
 DELTAS = [0.5, -1.25, 2.0]
@@ -139,6 +139,21 @@ def build_scene(algname, leaves, wrap):
             base = make_mv(alg, 'point', 'list', 5 + i)
             mvs.append(base)
             items.append((lambda s, b: (lambda: (s + b) if s is not None else b * 2))(src, base))
+        elif leaf in ('call:partial', 'call:object'):
+            # zero-argument callables that are not plain functions: functools.partial, an instance with __call__
+            import functools
+            base = make_mv(alg, 'point', 'list', 7 + i)
+            mvs.append(base)
+            if leaf == 'call:partial':
+                items.append(functools.partial(lambda b, k: b * k, base, 2))
+            else:
+                class _Callable:
+                    def __init__(self, b):
+                        self.b = b
+
+                    def __call__(self):
+                        return [self.b, f'obj{id(self) % 7}'[:3]]
+                items.append(_Callable(base))
         elif leaf == 'call:list':
             src = next((m for m in mvs if len(m) and len(m.shape) == 1), None)
             base = make_mv(alg, 'sparse', 'list', 9 + i)
